@@ -42,7 +42,7 @@ package transmit
 //@   ensures[table-emptied-and-pool-awaited] len(d.eventBatches) == 0 && waitN(p) == old(waitN(p)) + 1
 //@   ensures[no-error] result == nil
 //@   loop 1 invariant d != nil && toInt(d.dispatchPool) == toInt(p) && waitN(p) == old(waitN(p)) && len(d.eventBatches) == 0 && (stopCh != nil ==> closedN(stopCh) == 1)
-//@   modifies d.eventBatches, d.dispatchPool, d.stop, all(goN), all(waitN), all(closedN)
+//@   modifies d.eventBatches, d.dispatchPool, d.stop, all(goN), all(waitN), all(closedN), all(waitedN)
 
 // ---- C26: every event handed to the transmission is placed exactly once, in the batch of its own
 // destination (API host, API key, dataset); a batch is handed to the sending pool as soon as it holds
